@@ -94,7 +94,7 @@ def runValid (c : CaseBlock) : IO Unit := do
     if !Codec.WFm m then diffs := diffs ++ ["wf"]
     let implValid := field c "val" == some ["ok"]
     if Validate.machine m != implValid then diffs := diffs ++ ["validate"]
-    sig := machineFeat m
+    sig := machineFeat m ++ (if kindTag c == "" then [] else [kindTag c])
     match field c "ser" with
     | some ("panic" :: _) =>
       -- outside the property's hypothesis (encoding above the limit); the model must predict it
